@@ -71,7 +71,30 @@ func ParseFloat(b []byte) (float64, int) {
 			expExp = e
 			i += expLen
 		} else {
-			i = startExp
+			// ParseInt also gives up on an exponent that overflows int64: it is still part of the number
+			j := i
+			if j < len(b) && (b[j] == '+' || b[j] == '-') {
+				j++
+			}
+			k := j
+			for k < len(b) && '0' <= b[k] && b[k] <= '9' {
+				k++
+			}
+			if j < k {
+				expExp = math.MaxInt64
+				if b[i] == '-' {
+					expExp = math.MinInt64
+				}
+				i = k
+			} else {
+				i = startExp
+			}
+		}
+		// the result is zero or infinite far before this, and the subtraction below cannot overflow
+		if 1<<62 < expExp {
+			expExp = 1 << 62
+		} else if expExp < -(1 << 62) {
+			expExp = -(1 << 62)
 		}
 	}
 	exp := expExp - mantExp
